@@ -581,6 +581,22 @@ def r6_tails(text, notes):
             notes.add('R6', '`%s%s..` lowered to %s(%s, <closure verbatim>)' % (recv, ' '.join(text[m.start():m.start()].split()), helper, recv))
             changed = True
             break
+    # `X.drain(..N);` / `X.drain(..=N);` (result unused) -> `vf_drain_to(&mut X, N);` / `vf_drain_to_incl(&mut X, N);`
+    again = True
+    while again:
+        again = False
+        mask = mask_text(text)
+        m = re.search(r'\.\s*drain\s*\(\s*\.\.(=?)', mask)
+        if m:
+            par = mask.find('(', m.start())
+            close = match_close(mask, par)
+            rs = _receiver_start(mask, m.start())
+            recv = text[rs:m.start()].strip()
+            n = text[m.end():close].strip()
+            helper = 'vf_drain_to_incl' if m.group(1) == '=' else 'vf_drain_to'
+            text = text[:rs] + '%s(&mut %s, %s)' % (helper, recv, n) + text[close + 1:]
+            notes.add('R6', '`%s.drain(..%s%s)` lowered to %s' % (recv, m.group(1), n, helper))
+            again = True
     # `X.choose(&mut rand::thread_rng())` -> `vf_choose(X)` ; `E.chunks(K)` -> `vf_chunks(E.as_slice(), K)`
     mask = mask_text(text)
     m = re.search(r'\.\s*choose\s*\(\s*&mut\s+rand::thread_rng\s*\(\s*\)\s*\)', mask)
